@@ -33,6 +33,7 @@ from calmjs.parse.handlers.core import (
     layout_handler_closebrace,
     layout_handler_semicolon,
     layout_handler_semicolon_optional,
+    layout_handler_semicolon_openbrace,
 
     layout_handler_space_imply,
     layout_handler_space_optional_pretty,
@@ -108,6 +109,9 @@ def minify(drop_semi=True):
             # these two rules rely on the normalized resolution
             (OptionalSpace, EndStatement): layout_handler_semicolon_optional,
             (EndStatement, CloseBlock): layout_handler_closebrace,
+            # a block follows: the semicolon cannot be dropped, and the
+            # brace is layout, which the optional handler does not see.
+            (EndStatement, OpenBlock): layout_handler_semicolon_openbrace,
 
             # this is a fallback rule for when Dedent is defined by
             # some other rule, which won't neuter all optional
